@@ -6,6 +6,20 @@ import os
 import sys
 
 
+class _DocTimeout(BaseException):
+    pass
+
+
+def _has_timeout(e):
+    n = 0
+    while e is not None and n < 8:
+        if isinstance(e, _DocTimeout):
+            return True
+        e = e.__cause__ or e.__context__
+        n += 1
+    return False
+
+
 def main():
     spec = json.load(sys.stdin)
     sys.path.insert(0, spec["verif"])
@@ -33,6 +47,13 @@ def main():
             pos = d.get("pos", 0) if rep == 0 else 0
             bio.seek(min(pos, len(data)))
             clock.repatch()
+            import signal
+
+            def _too_long(signum, frame):
+                raise _DocTimeout()
+
+            signal.signal(signal.SIGVTALRM, _too_long)
+            signal.setitimer(signal.ITIMER_VIRTUAL, 25.0)  # termination is C01's property: a runaway document is skipped here
             try:
                 rs = list(get_extractor(d["route"])(bio, d.get("path")))
                 tree = [r.to_json() for r in rs]
@@ -42,9 +63,16 @@ def main():
                 if d["name"] in spec.get("want_tree", []):
                     rec.setdefault("trees", []).append(canon.canon(tree))
                     rec["types"] = [type(r).__name__ for r in rs]
+            except _DocTimeout:
+                rec["digests"].append("SKIPPED:cpu_budget")
             except Exception as e:
-                rec["digests"].append("EXC:" + type(e).__name__)
-                rec["err"] = repr(e)[:300]
+                if _has_timeout(e):
+                    rec["digests"].append("SKIPPED:cpu_budget")
+                else:
+                    rec["digests"].append("EXC:" + type(e).__name__)
+                    rec["err"] = repr(e)[:300]
+            finally:
+                signal.setitimer(signal.ITIMER_VIRTUAL, 0)
             if bio.getvalue() != data:
                 rec["buffer_changed"] = True
         out[d["name"]] = rec
